@@ -26,6 +26,7 @@ HEADER = "From MP Require Import Common.Base Common.Tree Model.Json Model.JsonRu
 POOL = ["a", "b", "Z", "0", " ", "\t", "\n", "\r", "\x00", "\x1f", "\x7f", '"', "'", "\\", "/", "<", ">", "&", "&amp;",
         "é", " ", " ", "中", "﻿", "￿", "\U0001F600", "\U00010000", "\U0010FFFF", "{", "}", "[", "]",
         ":", ",", "\\u0041", "\\n", "null", "true"]
+INDENTS = (0, 1, 2, 4, 9)
 SURR = ["\ud800", "\udfff", "\udc00\ud800"]
 NAMES = ["eml", "dataset", "title", "para", "x", "id", "children", "nsmap", "", "élément", "a b", "\U0001F600"]
 PREFIXES = ["a", "b", "c", "eml", "xsi", "stmml", "", "é"]
@@ -382,6 +383,43 @@ def statement_checks(ctx, root, hist, to_20210209, label):
             if not parents_ok(re[1]):
                 ctx.fail("C06:parents", "parent links of the reloaded tree are not set to the containing node",
                          {"kind": "impl-vs-statement", "tree": sn, "history": hist, "json": text})
+    # ---- every output mode of to_json (optional parameter indent), compared ORDER-sensitively
+    for ind in INDENTS:
+        ti = metapype_io.to_json(root, indent=ind)
+        ctx.count("indent modes")
+        if parse_ordered(ti) != ordered:
+            ctx.fail("corr:to_json-indent", f"to_json(indent={ind}) is not the document _serialize builds (as an ordered value)",
+                     {"kind": "broken-correspondence", "theorem": "C06 (serialize vs to_json, indent mode)", "tree": sn, "history": hist,
+                      "indent": ind, "json": ti}, concrete=False)
+        ri = run_impl(lambda: metapype_io.from_json(ti))
+        if not closed:
+            continue
+        if ri[0] != "ok":
+            ctx.fail("C06:roundtrip", f"from_json(to_json(t, indent={ind})) raised {ri[1]}",
+                     {"kind": "impl-vs-statement", "tree": sn, "history": hist, "indent": ind, "json": ti})
+            continue
+        isn = NL.snapshot(ri[1])
+        if isn != sn:
+            ctx.fail("C06:roundtrip", f"from_json(to_json(t, indent={ind})) is not t: " + first_diff(sn, isn),
+                     {"kind": "impl-vs-statement", "tree": sn, "history": hist, "indent": ind, "json": ti, "reloaded": isn})
+        if metapype_io.to_json(ri[1], indent=ind) != ti:
+            ctx.fail("C06:reserialize", f"re-serialising (indent={ind}) the tree reloaded from indent={ind} text gives a different text",
+                     {"kind": "impl-vs-statement", "tree": sn, "history": hist, "indent": ind, "json": ti})
+        if metapype_io.to_json(ri[1]) != text:
+            ctx.fail("C06:reserialize", f"compact text of the tree reloaded from indent={ind} text differs from the original's compact text",
+                     {"kind": "impl-vs-statement", "tree": sn, "history": hist, "indent": ind, "json": ti, "compact": text})
+        if not parents_ok(ri[1]):
+            ctx.fail("C06:parents", "parent links of the reloaded tree are not set to the containing node",
+                     {"kind": "impl-vs-statement", "tree": sn, "history": hist, "indent": ind, "json": ti})
+    # ---- statelessness of the codec (an assumption of the value model): same call, same answer
+    if metapype_io.to_json(root) != text or to_ordered(metapype_io._serialize(root)) != ordered:
+        ctx.fail("C06:stateless", "to_json of the same unchanged tree gives a different text the second time",
+                 {"kind": "impl-vs-statement", "tree": sn, "history": hist, "json": text})
+    if re[0] == "ok":
+        re2 = run_impl(lambda: metapype_io.from_json(text))
+        if re2[0] != "ok" or NL.snapshot(re2[1]) != rsn:
+            ctx.fail("C06:stateless", "from_json of the same text gives a different tree the second time",
+                     {"kind": "impl-vs-statement", "tree": sn, "history": hist, "json": text})
     # ---- legacy codec
     ltext = mp_io.to_json(root)
     lobj = mp_io.objectify(root)
@@ -429,6 +467,31 @@ def statement_checks(ctx, root, hist, to_20210209, label):
         rec["upgraded"] = ure
         rec["uloaded"] = ("exc", "n/a")
         ctx.fail("C06:upgrade", f"to_20210209 raised {ure[1]} on a legacy document", {"kind": "impl-vs-statement", "tree": sn, "legacy_json": ltext})
+    # ---- the same objects after an in-place edit vs a freshly built identical tree (no memoisation on identity)
+    nodes_now = []
+
+    def coll(n):
+        nodes_now.append(n)
+        for c in n.children:
+            coll(c)
+    coll(root)
+    tgt = nodes_now[len(text) % len(nodes_now)]
+    tgt.add_attribute("zz-edit", "1")
+    tgt.content = "edited"
+    tgt.tail = None if tgt.tail is not None else "t"
+    tgt.add_extras("zz:x", "y")
+    esn = NL.snapshot(root)
+    etext = metapype_io.to_json(root)
+    eltext = mp_io.to_json(root)
+    fresh = NL.build(esn, attach=False)
+    if etext != metapype_io.to_json(fresh) or eltext != mp_io.to_json(fresh):
+        ctx.fail("C06:stateless", "after an in-place edit, to_json of the edited tree differs from to_json of a freshly built identical tree",
+                 {"kind": "impl-vs-statement", "tree": sn, "history": hist, "edited_node": tgt.id, "edited_tree": esn, "json": etext})
+    if ns_closed(esn):
+        er = run_impl(lambda: metapype_io.from_json(etext))
+        if er[0] != "ok" or NL.snapshot(er[1]) != esn:
+            ctx.fail("C06:roundtrip", "after an in-place edit, from_json(to_json(t)) is not t",
+                     {"kind": "impl-vs-statement", "tree": esn, "history": hist + [["edit", tgt.id]], "json": etext})
     ctx.case((label, text), nontrivial=count_nodes(sn) > 1 or bool(sn["nsmap"]))
     ctx.count("closed" if closed else "ns-violating (outside the claim)")
     ctx.count("nodes<=%d" % (1 if count_nodes(sn) == 1 else 5 if count_nodes(sn) <= 5 else 20 if count_nodes(sn) <= 20 else 400))
